@@ -27,8 +27,8 @@ type vHistC09 struct {
 
 func vPruneOptsC09(t *rapid.T) (PruneOptions, []string) {
 	o := PruneOptions{
-		MaxUnused:           rapid.SampledFrom([]string{"0", "0", "5%", "50%", "unlimited", "1k", "100k"}).Draw(t, "maxunused"),
-		MaxRepackSize:       rapid.SampledFrom([]string{"", "", "", "0", "2k", "1M"}).Draw(t, "maxrepack"),
+		MaxUnused:           rapid.SampledFrom([]string{"0", "0", "0", "0", "0", "5%", "50%", "unlimited", "1k", "100k"}).Draw(t, "maxunused"),
+		MaxRepackSize:       rapid.SampledFrom([]string{"", "", "", "", "", "0", "2k", "1M"}).Draw(t, "maxrepack"),
 		RepackCacheableOnly: rapid.IntRange(0, 4).Draw(t, "cacheable") == 0,
 		RepackUncompressed:  rapid.IntRange(0, 4).Draw(t, "uncompressed") == 0,
 		SmallPackSize:       rapid.SampledFrom([]string{"", "", "1M", "1k"}).Draw(t, "smaller"),
@@ -96,7 +96,7 @@ func TestVerifC09PruneCrashPrefixes(t *testing.T) {
 		models := map[string]vTree{}
 		var order []string
 		for i := 0; i < h.Backups; i++ {
-			tr := vGenTree(t, vTreeGen{MaxEntries: 10, ContentPool: 14})
+			tr := vGenTree(t, vTreeGen{MaxEntries: 12, ContentPool: 10})
 			_ = os.RemoveAll(src)
 			_ = os.Mkdir(src, 0o755)
 			if err := tr.Materialize(src); err != nil {
